@@ -1,6 +1,8 @@
 import IrefVerif.Lemmas.Segs
 import IrefVerif.Lemmas.Nsegs
 import IrefVerif.Oracle
+import IrefVerif.Lemmas.PushList
+import IrefVerif.Lemmas.ValidWF
 
 /-!
 # C10 — path editing has list semantics and touches nothing but the path
@@ -8,15 +10,23 @@ import IrefVerif.Oracle
 Text-level facts, for all paths and segments: appending `/`+segment to a non-empty path
 appends exactly that segment to its `/`-split and keeps the path absolute/relative; writing a
 segment after the (optional) root of an empty path yields the one-segment path.  These are the
-two shapes `PathMutImpl::push` produces when no shield is involved; the shield cases, `pop`,
-`clear`, the symbolic operations and the frame (scheme, authority, query, fragment untouched)
-are judged on the implementation by the `pathmut` oracle (`Oracle.pmStep`, stated on
-`Oracle.listOp`), and the handle model `Model.PathMut` is compared with the real handle after
-every step of every history.
+two shapes `PathMutImpl::push` produces when no shield is involved.
+Model level (`Lemmas/PathMutView.lean`): on the *model of the Rust handle* (`Model/PathMut.lean`:
+window offsets, `Vec` splices, `end` bookkeeping, the `anchored`/`follows_authority` flags), for
+**every finite sequence** of `push` / `pop` / `clear` / `symbolic_push` / `symbolic_append` /
+`normalize` with arbitrary arguments, started from the handle of any valid reference
+(`handle_of_reference`) or any stand-alone path (`handle_of_path`): no call panics, the octets
+before and after the window — scheme, authority, query, fragment — are never touched, the window
+is exactly the new path, and the new path is an explicit function of the old one
+(`path_handle_step`, `path_handle_history`).  List semantics of `push` in every context,
+shields included: `push_list` (`Lemmas/PushList.lean`).  The list semantics of `pop`, `clear`
+and the symbolic operations are judged on the implementation by the `pathmut` oracle
+(`Oracle.pmStep`, stated on `Oracle.listOp`), and the handle model is compared with the real
+handle after every step of every history.
 -/
 
 namespace IrefVerif.Props.C10
-open IrefVerif IrefVerif.Spec IrefVerif.Lemmas IrefVerif.Oracle
+open IrefVerif IrefVerif.Spec IrefVerif.Lemmas IrefVerif.Oracle IrefVerif.Model
 
 /-- push on a non-empty path -/
 theorem push_nonempty (p s : Text) (hp : stripRoot p ≠ []) (hs : cSlash ∉ s) :
@@ -49,5 +59,103 @@ theorem listOp_norm_idem (abs : Bool) (e : List Text) :
 example : segs [0x61, 0x2F, 0x2F] = [[0x61], [], []] := by decide
 example : listOp false [] .pop = [segDotDot] := by decide
 example : listOp true [] .pop = [] := by decide
+
+/-! ## the model of the handle: frame and totality for every sequence of edits -/
+
+inductive PathOp
+  | push (s : Text) | pop | clear | spush (s : Text) | sapp (p : Text) | norm
+
+/-- the model of one call (`none` = panic) -/
+def pathStep (h : PathMut) : PathOp → Option PathMut
+  | .push s => h.push s
+  | .pop => h.pop
+  | .clear => h.clear
+  | .spush s => h.symbolic_push_pub s
+  | .sapp p => h.symbolic_append (Path.segmentList p)
+  | .norm => h.normalize
+
+/-- the path after one call, as a function of the path before it and the handle's context -/
+def opView (anch fa atStart : Bool) (v : Text) : PathOp → Text
+  | .push s => pushView anch fa atStart v s
+  | .pop => popView anch fa atStart v
+  | .clear => clearView v
+  | .spush s => symPushPubView anch fa atStart v s
+  | .sapp p => symAppendView anch fa atStart v (Path.segmentList p)
+  | .norm => normView fa atStart v
+
+def pathRun : PathMut → List PathOp → Option PathMut
+  | h, [] => some h
+  | h, op :: ops => match pathStep h op with
+    | some h' => pathRun h' ops
+    | none => none
+
+/-- **one edit**: no panic; the window is the new path; `pre` and `post` are untouched; the
+context flags are unchanged -/
+theorem path_handle_step (h : PathMut) (pre v post : Text) (inv : PInv h pre v post) (op : PathOp) :
+    ∃ h', pathStep h op = some h' ∧
+      PInv h' pre (opView h.anchored h.follows_authority (pre.length == 0) v op) post ∧
+      h'.follows_authority = h.follows_authority ∧ h'.anchored = h.anchored := by
+  cases op with
+  | push s => exact push_view h pre v post inv s
+  | pop => exact pop_view h pre v post inv
+  | clear => exact clear_view h pre v post inv
+  | spush s => exact symbolic_push_pub_view h pre v post inv s
+  | sapp p => exact symbolic_append_view h pre v post inv (Path.segmentList p)
+  | norm => exact normalize_view h pre v post inv
+
+/-- **every finite sequence of edits through one handle** -/
+theorem path_handle_history (ops : List PathOp) (h : PathMut) (pre v post : Text) (inv : PInv h pre v post) :
+    ∃ h', pathRun h ops = some h' ∧
+      PInv h' pre (ops.foldl (opView h.anchored h.follows_authority (pre.length == 0)) v) post := by
+  induction ops generalizing h v with
+  | nil => exact ⟨h, rfl, inv⟩
+  | cons op ops ih =>
+    obtain ⟨h1, e1, i1, f1, a1⟩ := path_handle_step h pre v post inv op
+    obtain ⟨h2, e2, i2⟩ := ih h1 _ i1
+    rw [f1, a1] at i2
+    exact ⟨h2, by simp only [pathRun, e1, e2], i2⟩
+
+/-- a stand-alone path buffer -/
+theorem handle_of_path (p : Text) : PInv (PathMut.from_path p) [] p [] :=
+  ⟨by simp [PathMut.from_path], rfl, by simp [PathMut.from_path]⟩
+
+/-- the handle of a valid reference: the window found by `path_mut()` is the path, between
+`scheme:` `//authority` and `?query` `#fragment` -/
+theorem handle_of_reference (G : Grammar) (ok : Grammar.Ok G) (w : Text) (h : RE.Matches G.reference w) :
+    PInv (Ref.path_mut w) (schemeText (split w).scheme ++ authText (split w).authority) (split w).path
+      (queryText (split w).query ++ fragText (split w).fragment) := by
+  obtain ⟨_, wf⟩ := split_valid G ok w h
+  have hp := find_path_recompose (split w) wf
+  rw [Lemmas.recompose_split] at hp
+  have hw := (Lemmas.recompose_split w).symm
+  rw [recompose_eq] at hw
+  refine ⟨?_, ?_, ?_⟩
+  · simp only [Ref.path_mut, PathMut.new]
+    conv => lhs; rw [hw]
+    simp [List.append_assoc]
+  · simp [Ref.path_mut, PathMut.new, hp]
+  · simp [Ref.path_mut, PathMut.new, hp]
+
+/-- **frame, end to end**: after any sequence of path edits on a valid reference the buffer is
+`scheme: //authority` ++ *new path* ++ `?query #fragment` with the original scheme, authority,
+query and fragment texts -/
+theorem path_edits_frame (G : Grammar) (ok : Grammar.Ok G) (w : Text) (h : RE.Matches G.reference w)
+    (ops : List PathOp) :
+    ∃ h' v', pathRun (Ref.path_mut w) ops = some h' ∧ h'.view = v' ∧
+      h'.buffer = schemeText (split w).scheme ++ authText (split w).authority ++ v' ++
+        (queryText (split w).query ++ fragText (split w).fragment) := by
+  obtain ⟨h', e, i⟩ := path_handle_history ops _ _ _ _ (handle_of_reference G ok w h)
+  exact ⟨h', _, e, i.view, i.data⟩
+
+/-- **`push` appends exactly that segment**, in every context, shields included -/
+theorem push_list (anch fa atStart : Bool) (v s : Text) (hs : cSlash ∉ s) :
+    realises (pushView anch fa atStart v s) (segs v ++ [s]) = true ∨
+    realises (pushView anch fa atStart v s) (alist v ++ [s]) = true :=
+  pushView_realises anch fa atStart v s hs
+
+/-- non-vacuity: a history through one handle inside a URI, computed by the model -/
+example : (pathRun (Ref.path_mut [0x73, 0x3A, 0x2F, 0x2F, 0x68, 0x3F, 0x71])
+    [.push [0x61], .push [], .pop, .spush [0x2E, 0x2E], .push [0x62]]).map (·.buffer)
+    = some [0x73, 0x3A, 0x2F, 0x2F, 0x68, 0x2F, 0x62, 0x3F, 0x71] := by decide
 
 end IrefVerif.Props.C10
